@@ -23,6 +23,8 @@ const IP_TOS_CE: u8 = 0x01;
 const IP_TOS_ECT: u8 = 0x02;
 /// Must be zero
 const IP4_MBZ: u8 = 0b0100;
+/// ECN nonce sum bit within the 4 reserved bits of the TCP header (RFC 3540)
+const TCP_NS: u8 = 0b0001;
 
 // Internal representation of a TCP package
 pub struct ObservableTCPPackage {
@@ -201,7 +203,8 @@ fn visit_tcp(
         return Err(HuginnNetTcpError::InvalidTcpFlags(flags));
     }
 
-    if (flags & (ECE | CWR)) != 0 {
+    // ECN support shows in ECE, CWR or the NS (nonce sum) bit, the lowest of the reserved bits
+    if (flags & (ECE | CWR)) != 0 || (tcp.get_reserved() & TCP_NS) != 0 {
         quirks.push(Quirk::Ecn);
     }
     if tcp.get_sequence() == 0 {
